@@ -138,6 +138,8 @@ class Plan:
         self.positions = []  # (path, type, "field"|"item", is_resolver) every completed position
         self.faults_fired = {}
         self.abstract_levels = {}
+        self.type_resolver_sites = []  # positions completed through a harness type resolver
+        self.type_faults = {}  # path -> library error the type resolver raises there
         self.default_type_resolutions = 0  # abstract positions resolved by the default type resolver
         self.probes = {}
         self.refused = False  # request refused before execution (operation / variables)
@@ -626,6 +628,18 @@ class RefExec:
     def resolve_type(self, abstract, raw, fd, path):
         level = self.abstract_level(abstract, fd)
         key = {"field": "_tn_field", "type": "_tn_type", "default": "_typename"}[level]
+        if level != "default" and not isinstance(path[-1], int):
+            # (list items are left out: the type resolver is given the field's info, it cannot tell the items apart)
+            self.plan.type_resolver_sites.append(path)
+            if self.faults.get(path) == "type_raise_tf":
+                # the (harness) type resolver raises a library error: a field error at this position
+                tok = self.token(path)
+                tf = ("user message " + tok, {"code": tok, "n": 7}, None)
+                self.plan.type_faults[path] = tf
+                self.fire("type_raise_tf")
+                ff = FieldFail(path, "raise_tf")
+                ff.token, ff.tf = tok, tf
+                raise ff
         tn = peek(raw, key)
         if level == "default":
             self.plan.default_type_resolutions += 1
@@ -760,4 +774,6 @@ def enumerate_fault_sites(plan):
             kinds = list(ITEM_FAULTS)
         for k in kinds:
             sites.append((path, k))
+    for path in getattr(plan, "type_resolver_sites", ()):
+        sites.append((path, "type_raise_tf"))
     return sites
